@@ -178,6 +178,31 @@ def run(db, tier):
                     n += 1
         rep.check(n == 1, "R-MASK", "%s|shift-by-one" % f.id, f.loc, "exactly one `%s 1` of the mask per argument" % shift,
                   "%d mask shifts by one in %s (expected exactly 1)" % (n, f.id))
+    # the shift is executed exactly when the encoding contributes to the mask (whatever is_always_immediate says):
+    # every path from the true edge of `contributes_to_param_mask()` to the next iteration passes the shift, and the false edge never does
+    for f, shift in ((fe, "Shl"), (fd, "Shr")):
+        sblocks = [bi for bi, b in enumerate(f.blocks) for s_ in b["s"] if s_["r"] == "binop" and s_["op"] == shift and isinstance(s_["b"], dict) and s_["b"].get("iv") == 1]
+        ccall = [(bi, t) for bi, t in f.calls() if t.get("f") == AE + "::contributes_to_param_mask"]
+        okm = False
+        whym = "no branch on contributes_to_param_mask() found"
+        if len(sblocks) == 1 and len(ccall) == 1:
+            sb = sblocks[0]
+            hdr = flow.innermost_header(f, sb)
+            for swb, neg in flow.switch_on_pol(f, place_local(ccall[0][1]["d"])):
+                t = f.blocks[swb]["t"]
+                if t.get("v") != [0] or len(t["t"]) != 2:
+                    continue
+                f_edge, t_edge = (t["t"][1], t["t"][0]) if neg else (t["t"][0], t["t"][1])
+                errs = flow.error_exit_blocks(f)
+                skip = hdr is not None and hdr in f.reachable_from(t_edge, avoid={sb} | errs)
+                rets = [bi for bi, b in enumerate(f.blocks) if b["t"]["k"] == "ret"]
+                skip = skip or any(r_ in f.reachable_from(t_edge, avoid={sb} | errs | ({hdr} if hdr is not None else set())) for r_ in rets)
+                false_hits = sb in f.reachable_from(f_edge, avoid={hdr} if hdr is not None else set()) or sb == f_edge
+                okm = not skip and not false_hits
+                whym = ("a contributing argument can reach the next argument without the mask being shifted (e.g. only shifted when it is not an "
+                        "always-immediate): all later mask bits are misaligned" if skip else
+                        "the mask is also shifted for an encoding that does not contribute to it") if not okm else ""
+        rep.check(okm, "R-MASK", "%s|shift iff contributes" % f.id, f.loc, "mask %s 1 on every path of a contributing argument and on no other" % shift, whym)
     fcm = db.fn(AE + "::contributes_to_param_mask")
     rep.fn(fcm)
     sg = []
